@@ -90,6 +90,9 @@ def run(ctx):
     if not ok:
         ctx.breakage("translation", "guard extraction failed: " + msg)
     runner.prove(ctx, MODULE, THEOREMS, FILES)
+    from .. import limits
+    limits.huge_int_probe(ctx, "C10")
+    limits.recursion_probe(ctx, "C10")
     cases = []
     for _ in range(ctx.n(3000, 30000)):
         facade, ops = GC.gen_chain(ctx.rnd, 4)
@@ -134,6 +137,18 @@ def run(ctx):
     for ops in ([("call", (1.5,)), ("min", (float("inf"),))], [("call", (1.5,)), ("max", (float("-inf"),))], [("min", (1e308,)), ("max", (-1e308,))],
                 [("call", (1e308,)), ("precision", (2,))], [("call", (5e-324,)), ("min", (1e-323,))]):
         cases.append(declcorr.ChainCase("float", list(ops)))
+    # characters special to str.format / %-formatting / regex in values, alphabets, substrings, patterns: every ordered
+    # pair of refinements after every value (an error message built from the repr of the schema so far must still be a
+    # DeclarationError)
+    from .C11 import UNIVERSE
+    sp = UNIVERSE["str#special"]
+    for v in sp["values"]:
+        for o1, o2 in itertools.permutations(sp["ops"], 2):
+            cases.append(declcorr.ChainCase("str", ([("call", (v,))] if v is not None else []) + [o1, o2]))
+    for v in ("{}", "a{0}", "%d", "{x}"):
+        for ops in ([("call", (v,)), ("call", (v,))], [("call", (v,)), ("len", (99,))], [("call", (v,)), ("alphabet", ("z",))],
+                    [("alphabet", (v,)), ("alphabet", (v,))], [("contains", (v,)), ("len", (..., 0))], [("contains", (v,)), ("alphabet", ("z",))]):
+            cases.append(declcorr.ChainCase("str", list(ops)))
     # value, then one bound, then the other — every small combination, both orders (a later check must not shadow an earlier one)
     R = range(-2, 4)
     for v in R:
